@@ -10,7 +10,7 @@ repository's Pipeline / Stage classes.
    writes that have completed write-back by its last decode tick.
 """
 from . import ir
-from .exec import make_sim, exc_info, REF_CAP
+from .exec import make_sim, exc_info, REF_CAP, Decoy
 
 
 def schedule(recs, prog, hz=True):
@@ -75,6 +75,7 @@ def run_delayed(trace, dc=None, ic=None, cap=REF_CAP, prog=None):
 
     prog_ir = trace["prog"] if prog is None else prog
     sim = make_sim(trace, "single_stage_pipeline", True, dc, ic, prog)
+    decoy = Decoy(trace, False, dc, ic, prog)
     st = sim.state
     pm = st.performance_metrics
     committed = list(st.register_file.registers)
@@ -126,6 +127,7 @@ def run_delayed(trace, dc=None, ic=None, cap=REF_CAP, prog=None):
         vr = _ViewRegs(view)
         st.register_file.registers = vr
         bc0 = pm.branch_count
+        decoy.step()
         try:
             sim.step()
         except Exception as e:  # noqa: BLE001
